@@ -244,9 +244,39 @@ def fam_annlists():
     return out
 
 
+def fam_widechoice():
+    """choice types of 2..9 alternatives that differ in ONE alternative (the j-th, for every j), met by one call of
+    EqualType that compares a type name twice: `big * big` against `T1 * T2` with T1 the expansion of big and T2 the
+    expansion with label j replaced (both orders).  Whatever summarises a type - a printed form, a hash, a memo key -
+    must not identify them.  The producer selects the replaced label, the consumer has no branch for it: a checker that
+    accepts the program makes the run die.  j = 0 is the well-typed control (prints ok)."""
+    out = []
+    for n in range(2, 10):
+        labs = ["l%d" % i for i in range(1, n + 1)]
+        big = "+{" + ", ".join("%s : 1" % l for l in labs) + "}"
+        kb = "case b ( " + " | ".join("%s<d> => wait d; close self" % l for l in labs) + " )"
+        ka = "case a ( " + " | ".join("%s<c> => wait c; %s" % (l, kb) for l in labs) + " )"
+        for j in range(0, n + 1):
+            labs2 = [("zz" if i == j else l) for i, l in enumerate(labs, 1)]
+            t2 = "+{" + ", ".join("%s : 1" % l for l in labs2) + "}"
+            good = labs[0] if j != 1 else labs[-1]
+            bad = "zz" if j else labs[0]
+            for order in ((0, 1) if j else (0,)):
+                ta, tb = (big, t2) if order == 0 else (t2, big)
+                sa, sb = (good, bad) if order == 0 else (bad, good)
+                out.append(("decl:widechoice:%d:%d:%d" % (n, j, order), "declshape:widechoice",
+                            "type big = %s\n" % big +
+                            "let use(p : big * big) : 1 = <a, b> <- recv p; %s\n" % ka +
+                            "let mka() : %s = u : 1 <- new close self; self.%s<u>\n" % (ta, sa) +
+                            "let mkb() : %s = v : 1 <- new close self; self.%s<v>\n" % (tb, sb) +
+                            "prc[prod] : (%s) * (%s) = x <- new mka(); y <- new mkb(); send self<x, y>\n" % (ta, tb) +
+                            "prc[main] : 1 = r <- new use(prod); wait r; print ok; close self\n"))
+    return out
+
+
 def stream():
     seen = set()
-    for fam in (fam_alias, fam_cycle, fam_dupdecl, fam_order, fam_modes, fam_depcycle, fam_ladder, fam_annlists):
+    for fam in (fam_alias, fam_cycle, fam_dupdecl, fam_order, fam_modes, fam_depcycle, fam_ladder, fam_annlists, fam_widechoice):
         for i, k, t in fam():
             if t not in seen:
                 seen.add(t)
